@@ -1,7 +1,190 @@
 package c11
 
-import "verifharness/kit"
+import (
+	"context"
+	"encoding/json"
+	"fmt"
+	"math/rand"
+	"os"
+	"path"
+	"strings"
+	"sync"
+	"time"
 
+	"github.com/obolnetwork/charon/app/eth1wrap"
+	"github.com/obolnetwork/charon/app/k1util"
+	"github.com/obolnetwork/charon/app/log"
+	"github.com/obolnetwork/charon/cluster"
+	"github.com/obolnetwork/charon/dkg"
+	"github.com/obolnetwork/charon/dkg/share"
+	dkgsync "github.com/obolnetwork/charon/dkg/sync"
+	"github.com/obolnetwork/charon/p2p"
+	"github.com/obolnetwork/charon/tbls"
+	"github.com/obolnetwork/charon/testutil"
+	"github.com/obolnetwork/charon/testutil/relay"
+
+	"verifharness/kit"
+)
+
+// fullRunMu serialises engine C ceremonies: each one starts a relay and n libp2p TCP hosts.
+var fullRunMu sync.Mutex
+
+// runFullCeremony is engine C: a complete dkg.Run per node (real libp2p over TCP loopback with an
+// in-process relay, sync protocol, exchanger, lock signing) the way the repo's own dkg test drives
+// it. The secret shares are read through TestConfig.StoreKeysFunc, group key and public shares
+// from the cluster lock every node wrote. Delivery order is whatever the real network produces.
 func runFullCeremony(c *kit.Case, cer ceremony, reg *keyRegistry) {
-	c.R.Count("fullrun_skipped", 1)
+	fullRunMu.Lock()
+	defer fullRunMu.Unlock()
+	r := c.R
+	t := r.T()
+	n, th, v := cer.N, cer.T, cer.V
+	algo := strings.TrimPrefix(cer.Engine, engFullRun+"-")
+	r.Count("ceremonies_started", 1)
+	r.Count("ceremonies_started_"+cer.Engine, 1)
+
+	seed := 1 + c.Rng.Intn(1<<30)
+	lock, keys, _ := cluster.NewForT(t, v, th, n, seed, rand.New(rand.NewSource(int64(seed))), //nolint:gosec // reproducible
+		func(d *cluster.Definition) { d.DKGAlgorithm = algo; d.TargetGasLimit = 30000000 })
+	def := lock.Definition
+	if err := def.VerifySignatures(nil); err != nil {
+		r.Inconclusive("case %d: generated definition does not verify: %v", c.Idx, err)
+		return
+	}
+
+	ctx, cancel := context.WithCancel(context.Background())
+	defer cancel()
+	relayAddr := relay.StartRelay(ctx, t)
+	dir := t.TempDir()
+
+	var mu sync.Mutex
+	stored := make([][]tbls.PrivateKey, n)
+	errs := make([]error, n)
+	var wg sync.WaitGroup
+	for i := 0; i < n; i++ {
+		b, _ := json.Marshal(def)
+		var defClone cluster.Definition
+		if err := json.Unmarshal(b, &defClone); err != nil {
+			r.Inconclusive("case %d: clone definition: %v", c.Idx, err)
+			return
+		}
+		conf := dkg.Config{
+			DataDir: path.Join(dir, fmt.Sprintf("node%d", i)),
+			P2P:     p2p.Config{Relays: []string{relayAddr}, TCPAddrs: []string{testutil.AvailableAddr(t).String()}},
+			Log:     log.DefaultConfig(),
+			TestConfig: dkg.TestConfig{
+				Def: &defClone,
+				StoreKeysFunc: func(secrets []tbls.PrivateKey, _ string) error {
+					mu.Lock()
+					stored[i] = append([]tbls.PrivateKey(nil), secrets...)
+					mu.Unlock()
+
+					return nil
+				},
+				SyncOpts: []func(*dkgsync.Client){dkgsync.WithPeriod(50 * time.Millisecond)},
+			},
+			ShutdownDelay:  time.Second,
+			PublishTimeout: 30 * time.Second,
+			Timeout:        time.Minute,
+		}
+		if err := os.MkdirAll(conf.DataDir, 0o755); err != nil {
+			r.Inconclusive("case %d: mkdir: %v", c.Idx, err)
+			return
+		}
+		if err := k1util.Save(keys[i], p2p.KeyPath(conf.DataDir)); err != nil {
+			r.Inconclusive("case %d: save key: %v", c.Idx, err)
+			return
+		}
+		wg.Add(1)
+		go func() {
+			defer wg.Done()
+			errs[i] = dkg.Run(ctx, conf)
+			if errs[i] != nil {
+				cancel()
+			}
+		}()
+		if i == 0 {
+			time.Sleep(100 * time.Millisecond) // as in the repo's test: mitigates startup backoffs, not required
+		}
+	}
+	finished := make(chan struct{})
+	go func() { wg.Wait(); close(finished) }()
+	wd := time.NewTimer(ceremonyWatchdog)
+	defer wd.Stop()
+	select {
+	case <-finished:
+	case <-wd.C:
+		cancel()
+		<-finished
+		r.Inconclusive("case %d (%s): full dkg.Run did not finish within %s: %v", c.Idx, cer, ceremonyWatchdog, errStrings(errs))
+
+		return
+	}
+	for i, e := range errs {
+		if e != nil {
+			// Real TCP + relay + real timers: a failure here is an environment observation, the
+			// fakenet engines own the ceremony-failed rule.
+			r.Count("fullrun_failed", 1)
+			r.Inconclusive("case %d (%s): dkg.Run of node %d failed: %v", c.Idx, cer, i, kit.Short(e.Error(), 300))
+
+			return
+		}
+	}
+
+	// Build the per-node share.Share view from what each node persisted.
+	results := make([][]share.Share, n)
+	var locks []cluster.Lock
+	for i := 0; i < n; i++ {
+		b, err := os.ReadFile(path.Join(dir, fmt.Sprintf("node%d", i), "cluster-lock.json"))
+		if err != nil {
+			c.Violation("dkg/"+cer.Engine+"/lock-missing", fmt.Sprintf("%s: node %d finished without error but wrote no lock: %v", cer, i, err), map[string]any{"ceremony": cer, "node": i})
+			return
+		}
+		var lk cluster.Lock
+		if err := json.Unmarshal(b, &lk); err != nil {
+			c.Violation("dkg/"+cer.Engine+"/lock-unreadable", fmt.Sprintf("%s: lock of node %d does not decode: %v", cer, i, err), map[string]any{"ceremony": cer, "node": i})
+			return
+		}
+		if err := lk.VerifyHashes(); err != nil {
+			c.Violation("dkg/"+cer.Engine+"/lock-hashes-invalid", fmt.Sprintf("%s: lock of node %d: %v", cer, i, err), map[string]any{"ceremony": cer, "node": i, "lock": string(b)})
+		}
+		if err := lk.VerifySignatures(eth1wrap.NewDefaultEthClientRunner("")); err != nil {
+			c.Violation("dkg/"+cer.Engine+"/lock-signatures-invalid", fmt.Sprintf("%s: lock of node %d: %v", cer, i, err), map[string]any{"ceremony": cer, "node": i, "lock": string(b)})
+		}
+		locks = append(locks, lk)
+		mu.Lock()
+		secrets := stored[i]
+		mu.Unlock()
+		if len(secrets) != v || len(lk.Validators) != v {
+			c.Violation("dkg/"+cer.Engine+"/share-count", fmt.Sprintf("%s: node %d stored %d secret shares, lock has %d validators, want %d", cer, i, len(secrets), len(lk.Validators), v), map[string]any{"ceremony": cer, "node": i})
+			return
+		}
+		for val := 0; val < v; val++ {
+			dv := lk.Validators[val]
+			pk, err := dv.PublicKey()
+			if err != nil {
+				c.Violation("dkg/"+cer.Engine+"/lock-pubkey-invalid", fmt.Sprintf("%s: node %d validator %d: %v", cer, i, val, err), map[string]any{"ceremony": cer, "node": i})
+				return
+			}
+			sh := share.Share{PubKey: pk, SecretShare: secrets[val], PublicShares: map[int]tbls.PublicKey{}}
+			for pi := range dv.PubShares {
+				ps, err := dv.PublicShare(pi)
+				if err != nil {
+					c.Violation("dkg/"+cer.Engine+"/lock-pubshare-invalid", fmt.Sprintf("%s: node %d validator %d share %d: %v", cer, i, val, pi, err), map[string]any{"ceremony": cer, "node": i})
+					return
+				}
+				sh.PublicShares[pi+1] = ps
+			}
+			results[i] = append(results[i], sh)
+		}
+	}
+	for i := 1; i < n; i++ {
+		if string(locks[i].LockHash) != string(locks[0].LockHash) {
+			c.Violation("dkg/"+cer.Engine+"/lock-hash-differs-across-nodes", fmt.Sprintf("%s: node %d wrote another lock hash than node 0", cer, i), map[string]any{"ceremony": cer, "node": i})
+		}
+	}
+	r.Count("ceremonies_succeeded", 1)
+	r.Count("ceremonies_succeeded_"+cer.Engine, 1)
+	r.Seen("configs", fmt.Sprintf("%s/n%d/t%d/v%d", cer.Engine, n, th, v))
+	checkShares(c, cer, results, "real libp2p/TCP order", reg)
 }
